@@ -23,12 +23,35 @@ func Calc(ctx context.Context, proc *query.Processor, expr string) error {
 		e.Message = "syntax error"
 		return query.NewSyntaxError(e)
 	}
-	selectEntity, _ := program[0].(parser.SelectQuery).SelectEntity.(parser.SelectEntity)
+	// the expression must leave a single plain SELECT over STDIN: anything else that happens to parse (a set operation,
+	// several statements) is not a value expression
+	calcSyntaxError := func() error {
+		return query.NewSyntaxError(&parser.SyntaxError{Message: "syntax error"})
+	}
+	if len(program) != 1 {
+		return calcSyntaxError()
+	}
+	selectQuery, ok := program[0].(parser.SelectQuery)
+	if !ok {
+		return calcSyntaxError()
+	}
+	selectEntity, ok := selectQuery.SelectEntity.(parser.SelectEntity)
+	if !ok {
+		return calcSyntaxError()
+	}
+	fromClause, ok := selectEntity.FromClause.(parser.FromClause)
+	if !ok {
+		return calcSyntaxError()
+	}
+	clause, ok := selectEntity.SelectClause.(parser.SelectClause)
+	if !ok {
+		return calcSyntaxError()
+	}
 
 	scope := query.NewReferenceScope(proc.Tx)
 	queryScope := scope.CreateNode()
 
-	view, err := query.LoadView(ctx, queryScope, selectEntity.FromClause.(parser.FromClause).Tables, false, false)
+	view, err := query.LoadView(ctx, queryScope, fromClause.Tables, false, false)
 	if err != nil {
 		if appErr, ok := err.(query.Error); ok {
 			err = errors.New(appErr.Message())
@@ -36,12 +59,13 @@ func Calc(ctx context.Context, proc *query.Processor, expr string) error {
 		return err
 	}
 
-	clause := selectEntity.SelectClause.(parser.SelectClause)
-
 	recordScope := scope.CreateScopeForRecordEvaluation(view, 0)
 	values := make([]string, len(clause.Fields))
 	for i, v := range clause.Fields {
-		field := v.(parser.Field)
+		field, ok := v.(parser.Field)
+		if !ok {
+			return calcSyntaxError()
+		}
 		p, err := query.Evaluate(ctx, recordScope, field.Object)
 		if err != nil {
 			if appErr, ok := err.(query.Error); ok {
